@@ -66,6 +66,7 @@ func (dc *agentConnection) Read(b []byte) (int, error) {
 		return n, nil
 	}
 	dc.m.Unlock()
+	verifReadGap(dc)
 
 	after := noDeadline
 
